@@ -151,7 +151,8 @@ def circuit_case(ctx, out, comps, w):
             for k in ids:
                 pv = np.array(td.get_power(k)(ts), dtype=float); tot += pv; mag += np.abs(pv)
             out.count('instant_tellegen_checked')
-            if np.any(np.abs(tot) > 1e-8 * np.maximum(mag, 1e-300) * len(ids)) and np.max(mag) > 0:
+            # powers that are all (numerically) zero — e.g. a source shorted by an inductor at w = 0 — carry rounding noise only
+            if np.any(np.abs(tot) > 1e-8 * np.maximum(mag, 1e-9 * scale) * len(ids)):
                 out.spec_fail(dict(canon, symptom='instant_tellegen'), 'instantaneous powers v(t)·i(t) do not sum to zero', gen_circ.pretty(comps),
                               impl=dict(sum=str(list(tot)), total_magnitude=str(list(mag))), comps=comps, w=w)
     except Exception as e:
@@ -172,7 +173,8 @@ def transient_case(ctx, out, desc, wseed):
         im = gen_state.impl_model(desc)
         rng = core.Rng(wseed, 'waves')
         srcs = [c['id'] for c in desc['comps'] if c['kind'] in ('V', 'I')]
-        coef = {s_: (rng.choice([0.5, 1.0, -2.0, 3.0]), rng.choice([0.0, 0.7, 2.0])) for s_ in srcs}
+        level = rng.choice([1.0, 1.0, 1e-3, 1e-6, 1e-9])          # small-signal levels: powers down to atto-watts are judged relative to themselves
+        coef = {s_: (level * rng.choice([0.5, 1.0, -2.0, 3.0]), rng.choice([0.0, 0.7, 2.0])) for s_ in srcs}
         wave = {s_: (lambda t, a=a, f=f: a * np.minimum(t, 1.0) + 0.25 * a * np.sin(f * t)) for s_, (a, f) in coef.items()}
         tin = np.linspace(0.0, 3.0, 97)
         ts = TransientSolution(im.circuit, tin=tin, input=wave)
@@ -186,7 +188,10 @@ def transient_case(ctx, out, desc, wseed):
     except Exception as e:
         out.count('transient_error:' + tag(e)); return
     out.nontrivial(('transient', gen_state.shape(desc)))
-    scale = max([float(np.max(np.abs(v)) * np.max(np.abs(i))) for v, i, _ in P.values()] + [1e-300])
+    vmax = max([float(np.max(np.abs(v))) for v, _, _ in P.values()] + [0.0])
+    gmax = max([1.0 / c['val'] for c in desc['comps'] if c['kind'] == 'R' and c['val'] > 0] + [1.0])
+    # power scale of the problem; a circuit in which no current can flow reports rounding noise only
+    scale = max([float(np.max(np.abs(v)) * np.max(np.abs(i))) for v, i, _ in P.values()] + [1e-9 * vmax * vmax * gmax, 1e-300])
     tot = np.zeros_like(tin)
     for k, (v, i, p) in P.items():
         if np.max(np.abs(p - v * i)) > 1e-9 * scale:
